@@ -124,7 +124,8 @@ def build_engine(world, sim, yp_class, ctl, warmup=False):
                 # dynamic facts that hold goals: ground compound terms, shared by every use of the fact
                 yp.assert_fact(yp.atom(n), [yp.functor('s', [yp.atom('b')]) if k == 0 else yp.functor('q', [])])
             else:
-                yp.assert_fact(yp.atom(n), [yp.atom('dyn%d' % k)] * a)
+                # every other dynamic fact has a different atom in every position (q(V,V)-style calls must fail on it cleanly)
+                yp.assert_fact(yp.atom(n), [yp.atom('dyn%d' % (k + (j if k % 2 == 0 else 0))) for j in range(a)])
     qvars = {}
     qargs = [TM.build(yp, TM.T(t), qvars) for t in world['query'][1]]
     held = []
